@@ -11,6 +11,8 @@ import project
 import r_depend
 import r_contra
 import r_pair
+import r_encbound
+import r_meta
 import witness
 
 
@@ -36,11 +38,11 @@ def c05(facts, tier):
                  "that the decrypted message is preserved; rounding bounds of rescaling; the arithmetic of the "
                  "BGV correction factor.")
     files = None if tier == "thorough" else {"src/evaluator.rs", "src/context.rs", "src/app/lwe.rs"}
+    fam = r_forms.families(facts)
     n_loops, n_walk = r_loop.run(facts, rep, scope_files=files)
     rep.floor("R-LOOP", "while/loop statements analysed", n_loops, 10 if files else 70)
     rep.floor("R-LOOP(adv)", "level-walking loops (condition on parms_id of a written object)", n_walk, 3)
     # refusals (pre-return mode)
-    fam = r_forms.families(facts)
     rows = []
     CT, PT = "text::Ciphertext", "text::Plaintext"
     for stem, ty, cls, why in (
@@ -76,6 +78,40 @@ def c05(facts, tier):
                     rep.violation("R-GUARD(scheme)", key, "%s can return normally under %s: rescaling outside CKKS is "
                                   "computed instead of refused" % (p, scheme), facts.loc(p))
     rep.floor("R-GUARD(scheme)", "rescale entry x scheme rows", n, 12)
+    # bookkeeping of the switch (symbolic metadata per scheme projection)
+    M = r_meta
+    me = meta_engines(facts)
+    rep.rule("R-METAFLOW(table)", "per scheme: the to-next forms record level = parms_id(next_context_data(level(a))); "
+             "drop switch keeps scale and correction factor; rescale divides the scale by the dropped prime; the BGV "
+             "scale switch records cf = multiply_u64_mod(cf(a), inv_q_last_mod_t, t)")
+    nrows = 0
+    for sc, (pfm, em) in me.items():
+        trows = []
+        nxt = lambda y: M.mentions(y, lambda z: z[0] == "call" and z[1] == "next_context_data") and \
+            M.mentions(y, lambda z: z == M.S("level", 0))
+        for p in _forms(fam, "mod_switch_to_next") + (_forms(fam, "rescale_to_next") if sc == "CKKS" else []):
+            trows.append((p, "level", nxt, "parms_id(next_context_data(level(a)))"))
+            trows.append((p, "ntt", lambda y: y == M.S("ntt", 0), "representation flag unchanged"))
+        for p in _forms(fam, "mod_switch_to_next_plain"):
+            trows.append((p, "level", lambda y: M.mentions(y, lambda z: z[0] == "call" and z[1] == "next_context_data"),
+                          "level of the next context data"))
+            trows.append((p, "scale", lambda y: y == M.S("scale", 0), "scale(a) unchanged"))
+        for p in _forms(fam, "mod_switch_to_next"):
+            if sc == "BGV":
+                trows.append((p, "cf", lambda y: M.is_call(y, "multiply_u64_mod", M.S("cf", 0)) and
+                              M.mentions(y, lambda z: z[0] == "call" and z[1] == "inv_q_last_mod_t"),
+                              "multiply_u64_mod(cf(a), inv_q_last_mod_t, t)"))
+            else:
+                trows.append((p, "cf", lambda y: y == M.S("cf", 0), "cf(a) unchanged"))
+            trows.append((p, "scale", lambda y: y == M.S("scale", 0), "scale(a) unchanged (drop / scale switch outside CKKS rescale)"))
+        if sc == "CKKS":
+            for p in _forms(fam, "rescale_to_next"):
+                trows.append((p, "scale", lambda y: isinstance(y, tuple) and y[0] == "div" and y[1] == M.S("scale", 0),
+                              "scale(a) / dropped prime"))
+                trows.append((p, "cf", lambda y: y == M.S("cf", 0), "cf(a) unchanged"))
+        M.check_table(pfm, em, rep, sc, trows)
+        nrows += len(trows)
+    rep.floor("R-METAFLOW(table)", "switch bookkeeping rows", nrows, 60)
     return rep
 
 
@@ -111,6 +147,8 @@ def c06(facts, tier):
     nf, nm = r_forms.run(facts, rep)
     rep.floor("R-FORMS(cert)", "API families with >= 2 forms", nf, 25)
     rep.floor("R-FORMS(cert)", "family members", nm, 75)
+    n = r_meta.check_forms(meta_engines(facts), rep, r_forms.families(facts))
+    rep.floor("R-METAFLOW(forms)", "(scheme, family) pairs compared", n, 60)
     witness.run(rep, facts.repo, doc_tests=(tier == "thorough"))
     return rep
 
@@ -143,6 +181,18 @@ def c17(facts, tier):
                 rep.violation("R-LOCK(b,e)", "field/%s.%s" % (tp, n), "shareable type %s has interior-mutable field "
                               "`%s: %s` that is not a lock: unsynchronised shared mutation" % (tp, n, ty))
     return rep
+
+
+def meta_engines(facts, schemes=("BFV", "CKKS", "BGV")):
+    out = {}
+    for sc in schemes:
+        pf = project.ProjFacts(facts, sc)
+        out[sc] = (pf, r_meta.MetaEngine(pf))
+    return out
+
+
+def _forms(fam, *stems):
+    return [p for st in stems for _, p in sorted(fam.get(st, {}).items())]
 
 
 def _ops(facts, p, ty):
@@ -197,6 +247,29 @@ def c03(facts, tier):
     r_guard.check_return_facts(pf, rep, eng, rows, "R-GUARD(ckks)")
     rep.floor("R-GUARD(ckks)", "refusal rows (entry x clause)", len(rows), 30)
     rep.extra["guard_engine"] = eng.stats
+    # scale bookkeeping (symbolic metadata on the CKKS projection)
+    M = r_meta
+    fam = r_forms.families(facts)
+    me = meta_engines(facts, ("CKKS",))
+    pfm, em = me["CKKS"]
+    rep.rule("R-METAFLOW(table)", "the scale recorded on the result, as a symbolic expression over the operands' scales, is "
+             "the product (multiply, square, multiply_plain), the quotient by the dropped prime (rescale) or the operand's "
+             "scale (add, sub, negate, +-plain, drop switch, rotations, relinearize) on every path of the CKKS projection")
+    trows = []
+    for p in _forms(fam, "multiply", "multiply_plain"):
+        trows.append((p, "scale", lambda y: M.is_product(y, M.S("scale", 0), M.S("scale", 1)), "scale(a) * scale(b)"))
+    for p in _forms(fam, "square"):
+        trows.append((p, "scale", lambda y: M.is_product(y, M.S("scale", 0), M.S("scale", 0)), "scale(a) * scale(a)"))
+    for p in _forms(fam, "rescale_to_next"):
+        trows.append((p, "scale", lambda y: isinstance(y, tuple) and y[0] == "div" and y[1] == M.S("scale", 0) and
+                      M.mentions(y[2], lambda z: z[0] == "call" and z[1] == "coeff_modulus") and
+                      M.mentions(y[2], lambda z: z[0] == "call" and z[1] == "last"),
+                      "scale(a) / value(last prime of a's level)"))
+    for p in _forms(fam, "mod_switch_to_next", "add", "sub", "negate", "add_plain", "sub_plain", "relinearize",
+                    "rotate_vector", "complex_conjugate", "transform_to_ntt", "transform_from_ntt", "mod_switch_to"):
+        trows.append((p, "scale", lambda y: y == M.S("scale", 0), "scale(a) unchanged"))
+    M.check_table(pfm, em, rep, "CKKS", trows)
+    rep.floor("R-METAFLOW(table)", "scale bookkeeping rows", len(trows), 45)
     return rep
 
 
@@ -277,7 +350,40 @@ def c04(facts, tier):
     return rep
 
 
+def helper_types(facts):
+    """Helper structs of the matmul / conv2d applications: local structs under app:: that have encoder-taking methods."""
+    out = []
+    for tp in sorted(facts.types):
+        if not tp.startswith("app::") or tp.startswith("app::rns_plain") or tp.startswith("app::lwe"):
+            continue
+        ms = facts.methods_of(tp)
+        if any(any("Encoder" in pp.get("ty", "") for pp in facts.items[m]["params"]) for m in ms):
+            out.append(tp)
+    return out
+
+
+def c20(facts, tier):
+    rep = Report("C20", tier, facts,
+                 "R-ENCBOUND over every encoder call of the matmul/conv2d helper structs: the encoded buffer's length "
+                 "never has the global counterpart of a block dimension as a factor (global/block pairs read off the "
+                 "struct definitions); R-INDEXPAIR: the _bfv/_ckks twins of every helper method have identical "
+                 "integer skeletons (loop ranges, integer lets, index expressions of stores and loads).",
+                 "that the homomorphic product / correlation equals the plaintext one; optimality of the block "
+                 "search; the BOLT helpers' slot arithmetic (%, /) beyond twin agreement.")
+    hts = helper_types(facts)
+    rep.floor("R-ENCBOUND", "helper struct types", len(hts), 5)
+    n = r_encbound.run_encbound(facts, rep, hts)
+    rep.floor("R-ENCBOUND", "encoder call sites in helpers", n, 25)
+    n = r_encbound.run_twins(facts, rep, hts)
+    rep.floor("R-INDEXPAIR", "bfv/ckks twin pairs", n, 8)
+    strict = [t for t in hts if r_encbound.block_pairs(facts, t)]     # cheetah MatmulHelper, Conv2dHelper
+    n = r_encbound.run_inverse(facts, rep, strict)
+    rep.floor("R-INDEXPAIR(inv)", "encode_outputs/decode pairs", n, 4)
+    return rep
+
+
 CHECKS = {
+    "C20": c20,
     "C04": c04,
     "C11": c11,
     "C12": c12,
